@@ -277,6 +277,9 @@ func runC03(w *World, r *Report) {
 	reportSkipExact(w, r, "C03.skip-decision-order-free")
 
 	// ---- visits-all: every submitted / completed task and every target channel is processed
+	shareRule(w, r, "C03.ready-needs-data", "a DAG node is ready only when every data predecessor has delivered, whatever its control predecessors: the result must not depend on whether a data-only source finishes before or after the control predecessors", 8, "C02", "C02.ready-guards")
+	shareRule(w, r, "C03.interrupt-waits-all", "a rerun / nested interrupt in an eager run collects every running sibling before the checkpoint is written and the run returns: no node is left executing behind the caller, and the resumed run has every output", 3, "C05", "C05.wait-all-before-save")
+
 	r.Rule("C03.visits-all", "the loops over tasks, completed tasks, written channels and ready channels in the scheduler are left only when exhausted or with an error", 8)
 	ruleLoopsTotal(w, r, "C03.visits-all", []*ssa.Function{
 		w.Fn("compose", "taskManager.submit"), w.Fn("compose", "taskManager.waitAll"), w.Fn("compose", "runner.resolveCompletedTasks"),
